@@ -840,6 +840,132 @@ func plantDirectoryTwoPackages(e *Editor, ws *Workspace) (*Plant, bool) {
 		Also: []string{"PACKAGE_DIRECTORY_MATCH", "PACKAGE_NO_IMPORT_CYCLE", "PACKAGE_SAME_GO_PACKAGE", "PACKAGE_SAME_JAVA_PACKAGE", "PACKAGE_SAME_JAVA_MULTIPLE_FILES", "PACKAGE_SAME_CSHARP_NAMESPACE"}}, true
 }
 
+// crossPackageImportSites returns the import-statement ids of every cross-package import that lies on a package cycle.
+func cyclicImportSites(ws *Workspace) []string {
+	var out []string
+	for _, f := range lintFiles(ws) {
+		for _, imp := range f.Imports {
+			g, _ := ws.FileByPath(imp.Path)
+			if g == nil || g.Package == f.Package {
+				continue
+			}
+			if pkgReach(ws, g.Package)[f.Package] {
+				out = append(out, f.ID+"#import:"+imp.Path)
+			}
+		}
+	}
+	sort.Strings(out)
+	return out
+}
+
+func plantPackageImportCycle(e *Editor, ws *Workspace) (*Plant, bool) {
+	if len(cyclicImportSites(ws)) > 0 {
+		return nil, false
+	}
+	type edge struct{ from, to *File }
+	var edges []edge
+	for _, f := range lintFiles(ws) {
+		for _, imp := range f.Imports {
+			if g, _ := ws.FileByPath(imp.Path); g != nil && g.Package != f.Package && len(f.Messages) > 0 {
+				edges = append(edges, edge{f, g})
+			}
+		}
+	}
+	if len(edges) == 0 {
+		return nil, false
+	}
+	ed := edges[e.pick("edge", len(edges))]
+	// a new file in the imported package that uses a message of the importing file
+	h := &File{ID: e.id(), Path: dirOf(ed.to.Path) + "/" + e.fresh() + ".proto", Syntax: ed.to.Syntax, Package: ed.to.Package}
+	for _, o := range ed.to.Options {
+		if !strings.HasPrefix(o.Name, "(") {
+			h.Options = append(h.Options, o)
+		}
+	}
+	target := ed.from.Messages[0]
+	m := &Message{ID: e.id(), Name: lowerSnakeToPascal(e.fresh()), Comment: "cycle maker."}
+	fld := &Field{ID: e.id(), Name: e.fresh(), Number: 1, Type: "." + FullName(ed.from.Package, target.Name), TypeKind: "message", Comment: "back reference."}
+	if isProto2ish(h.Syntax) {
+		fld.Label = LabelOptional
+	}
+	m.Fields = []*Field{fld}
+	h.Messages = []*Message{m}
+	h.Imports = []Import{{Path: ed.from.Path}}
+	mod := ws.ModuleOf(ed.to)
+	mod.Files = append(mod.Files, h)
+	sites := cyclicImportSites(ws)
+	if len(sites) == 0 {
+		return nil, false
+	}
+	return &Plant{Op: "package-import-cycle", Rule: "PACKAGE_NO_IMPORT_CYCLE", Desc: fmt.Sprintf("new file %s of package %s imports %s of package %s, which imports %s", h.Path, h.Package, ed.from.Path, ed.from.Package, ed.to.Path),
+		Sites: sites, Versions: []string{"v2"}}, true
+}
+
+func plantStableImportsUnstable(e *Editor, ws *Workspace) (*Plant, bool) {
+	// a package that is imported by another (stable) package becomes vNalpha1
+	imported := map[string]bool{}
+	for _, f := range lintFiles(ws) {
+		for _, imp := range f.Imports {
+			if g, _ := ws.FileByPath(imp.Path); g != nil && g.Package != f.Package {
+				imported[g.Package] = true
+			}
+		}
+	}
+	names := SortedKeys(imported)
+	if len(names) == 0 {
+		return nil, false
+	}
+	old := names[e.pick("pkg", len(names))]
+	neu := old + "alpha1"
+	changePackageEverywhere(ws, old, neu)
+	movePackageDir(ws, neu, strings.ReplaceAll(neu, ".", "/"))
+	var sites []string
+	for _, f := range lintFiles(ws) {
+		if f.Package == neu || strings.Contains(f.Package[strings.LastIndex(f.Package, ".")+1:], "alpha") {
+			continue
+		}
+		for _, imp := range f.Imports {
+			if g, _ := ws.FileByPath(imp.Path); g != nil && g.Package == neu {
+				sites = append(sites, f.ID+"#import:"+imp.Path)
+			}
+		}
+	}
+	if len(sites) == 0 {
+		return nil, false
+	}
+	sort.Strings(sites)
+	return &Plant{Op: "stable-imports-unstable", Rule: "STABLE_PACKAGE_NO_IMPORT_UNSTABLE", Desc: fmt.Sprintf("package %s becomes %s while stable packages import it", old, neu), Sites: sites, Versions: []string{"v2"}}, true
+}
+
+func plantPackageUndefined(e *Editor, ws *Workspace) (*Plant, bool) {
+	// a file that is alone in its package and directory loses its package statement
+	var cands []*File
+	for _, f := range lintFiles(ws) {
+		alone := true
+		for _, g := range lintFiles(ws) {
+			if g != f && (g.Package == f.Package || (dirOf(g.Path) == dirOf(f.Path) && ws.ModuleOf(g) == ws.ModuleOf(f))) {
+				alone = false
+			}
+		}
+		if alone && f.Package != "" && len(f.Services) == 0 {
+			cands = append(cands, f)
+		}
+	}
+	if len(cands) == 0 {
+		return nil, false
+	}
+	f := cands[e.pick("file", len(cands))]
+	old := f.Package
+	f.Package = ""
+	mapTypes(ws, func(t string) string {
+		if strings.HasPrefix(t, "."+old+".") {
+			return strings.TrimPrefix(t, "."+old)
+		}
+		return t
+	})
+	return &Plant{Op: "package-undefined", Rule: "PACKAGE_DEFINED", Desc: f.Path + " without package (was " + old + ")", Sites: []string{f.ID}}, true
+}
+
 // PlantOps is the planting catalogue.
 var PlantOps = []PlantOp{
 	{"message-case", plantMessageCase},
@@ -870,6 +996,9 @@ var PlantOps = []PlantOp{
 	{"package-two-directories", plantPackageSameDirectory},
 	{"package-option-differs", plantPackageOptionDiffers},
 	{"directory-two-packages", plantDirectoryTwoPackages},
+	{"package-import-cycle", plantPackageImportCycle},
+	{"stable-imports-unstable", plantStableImportsUnstable},
+	{"package-undefined", plantPackageUndefined},
 }
 
 // ApplyPlant applies one planting operator.
